@@ -33,7 +33,7 @@
    every run and proved equal to Model/Matrix.v. *)
 From Coq Require Import List ZArith NArith Bool Arith.
 From EasyML Require Import Base.Sx Model.Matrix Proofs.C11Spec Proofs.C11Ops Proofs.C11Transpose Proofs.C11P.
-From EasyML Require Import Model.MatrixViews Model.MatrixHistory Proofs.C12Partition Proofs.C11Part.
+From EasyML Require Import Model.MatrixViews Model.MatrixHistory Proofs.C12Partition Proofs.C11Part Proofs.C11UndoP.
 Import ListNotations.
 Open Scope N_scope.
 
@@ -85,6 +85,20 @@ Theorem C11_final_state : forall (T : Type) (s : matrix T) (ops : list (op T)),
   Inv s -> all_fit (abs s) ops ->
   abs (impl_run s ops) = spec_run (abs s) ops /\ Inv (impl_run s ops).
 Proof. exact @run_refines. Qed.
+
+(* undo laws, corollaries of the history theorem: removing the row / column that was just inserted at a
+   valid position gives back exactly the original list of rows (and a valid state) - for every valid
+   start, every position 0..=rows (0..=columns) and every fill value *)
+Theorem C11_insert_remove_row_undo : forall (T : Type) (s : matrix T) i v, Inv s -> i <= m_rows s ->
+  all_fit (abs s) [OInsertRow i v; ORemoveRow i] ->
+  abs (impl_run s [OInsertRow i v; ORemoveRow i]) = abs s /\ Inv (impl_run s [OInsertRow i v; ORemoveRow i]).
+Proof. exact @insert_remove_row_undo. Qed.
+
+Theorem C11_insert_remove_column_undo : forall (T : Type) (s : matrix T) j v, Inv s -> j <= m_cols s ->
+  all_fit (abs s) [OInsertColumn j v; ORemoveColumn j] ->
+  abs (impl_run s [OInsertColumn j v; ORemoveColumn j]) = abs s /\
+  Inv (impl_run s [OInsertColumn j v; ORemoveColumn j]).
+Proof. exact @insert_remove_column_undo. Qed.
 
 (* one operation on the flat form of any non-empty rectangle m: the result is the flat form of
    the specified list of rows, which is again a non-empty rectangle *)
@@ -239,6 +253,8 @@ Print Assumptions C11_invariant_unconditional.
 Print Assumptions C11_all_fit_when_not_growing.
 Print Assumptions C11_all_fit_bounded.
 Print Assumptions C11_final_state.
+Print Assumptions C11_insert_remove_row_undo.
+Print Assumptions C11_insert_remove_column_undo.
 Print Assumptions C11_step.
 Print Assumptions C11_observations.
 Print Assumptions C11_iteration_orders.
